@@ -24,7 +24,8 @@ import common
 from common import RUSTFMT, Scratch, base_env, run, write_tree, read
 
 FILES = {
-    "a.rs": "fn a() {}\n",
+    "rustfmt.toml": "tab_spaces = 3\n",
+    "a.rs": "fn a() { if x { y(); } }\n",
     "b.rs": "fn  b ( ) { let  x=1 ; }\n",
     "c.rs": "fn c( { let x = ; }\n",
     "d/d.rs": "fn  d ( ) { if  a { b ( ) ; } }\n",
